@@ -530,7 +530,31 @@ func (m *Machine) Apply(a *Action) (Outcome, error) {
 		info := &operatortypes.OperatorInfo{EarningsAddr: who.Bech32(), ApproveAddr: who.Bech32(), OperatorMetaInfo: "probe", Commission: stakingtypes.NewCommission(sdk.ZeroDec(), sdk.OneDec(), sdk.OneDec())}
 		return m.cosmosAs(a, who, &operatortypes.RegisterOperatorReq{FromAddress: who.Bech32(), Info: info})
 	case "regChain":
-		return fromCall(c.Precompile(m.caller(a.Caller), sim.AssetsPrecompileAddr, c.AssetsABI(), "registerOrUpdateClientChain", uint32(a.Lz), uint8(20), fmt.Sprintf("chain-%d", a.Lz), "probe", "ECDSA"))
+		// (a.Key > 0: an address length other than 20 bytes, e.g. 32 for a non-EVM client chain)
+		addrLen := uint8(20)
+		if a.Key > 0 {
+			addrLen = uint8(a.Key)
+		}
+		return fromCall(c.Precompile(m.caller(a.Caller), sim.AssetsPrecompileAddr, c.AssetsABI(), "registerOrUpdateClientChain", uint32(a.Lz), addrLen, fmt.Sprintf("chain-%d", a.Lz), "probe", "ECDSA"))
+	case "depositTok":
+		// a deposit of a token that was registered during the history (kind regToken with the same
+		// Lz and N); the staker is the actor's address, as many bytes as the chain asks for
+		tok := make([]byte, 32)
+		copy(tok, []byte{0xaa, byte(a.N), byte(a.N >> 8), 0x01})
+		staker := make([]byte, 32)
+		copy(staker, m.ActorAddr(a.Actor).Bytes())
+		copy(staker[20:], []byte{0x51, 0x52, 0x53, 0x54, 0x55, 0x56, 0x57, 0x58, 0x59, 0x5a, 0x5b, 0x5c})
+		switch a.Mode {
+		case 1: // delegate it to an operator
+			return fromCall(c.Precompile(m.caller(a.Caller), sim.DelegationPrecompileAddr, c.DelegationABI(), "delegate", uint32(a.Lz), c.NextLzNonce(a.Lz), tok, staker, []byte(m.OpAcc(a.Op).String()), amt(a.Amount)))
+		case 2: // undelegate
+			return fromCall(c.Precompile(m.caller(a.Caller), sim.DelegationPrecompileAddr, c.DelegationABI(), "undelegate", uint32(a.Lz), c.NextLzNonce(a.Lz), tok, staker, []byte(m.OpAcc(a.Op).String()), amt(a.Amount)))
+		case 3: // withdraw
+			return fromCall(c.Precompile(m.caller(a.Caller), sim.AssetsPrecompileAddr, c.AssetsABI(), "withdrawLST", uint32(a.Lz), tok, staker, amt(a.Amount)))
+		case 4: // associate the staker with the operator
+			return fromCall(c.Precompile(m.caller(a.Caller), sim.DelegationPrecompileAddr, c.DelegationABI(), "associateOperatorWithStaker", uint32(a.Lz), staker, []byte(m.OpAcc(a.Op).String())))
+		}
+		return fromCall(c.Precompile(m.caller(a.Caller), sim.AssetsPrecompileAddr, c.AssetsABI(), "depositLST", uint32(a.Lz), tok, staker, amt(a.Amount)))
 	case "regToken":
 		tok := make([]byte, 32)
 		copy(tok, []byte{0xaa, byte(a.N), byte(a.N >> 8), 0x01})
